@@ -197,3 +197,45 @@ def ev(e, env):
     if op == "inert":
         return ev(e[1], env)
     raise ValueError("reference cannot evaluate op %r here" % (op,))
+
+
+# ----------------------------------------------------------------------------------
+# Structure probe: does an expression, as CasADi simplifies it, still depend on each shifted operand?
+# ----------------------------------------------------------------------------------
+
+def lost_offsets(exprs):
+    """exprs: list of trees that together form one relation (e.g. [lhs_i, rhs_i]).  Every leaf and every
+    off(...) / placeholder node becomes a fresh MX symbol; returns the off-nodes the simplified difference
+    no longer depends on (generator-made cancellations such as (x - x)*prev(y))."""
+    import casadi as ca
+    import json
+    atoms = {}
+
+    def atom(node):
+        k = json.dumps(node)
+        if k not in atoms:
+            atoms[k] = ca.MX.sym("a%d" % len(atoms))
+        return atoms[k]
+
+    def rec(e):
+        op = e[0]
+        if op == "c":
+            return ca.MX(e[1])
+        if op == "neg":
+            return -rec(e[1])
+        if op == "sq":
+            a = rec(e[1])
+            return a * a
+        if op in ("sin", "cos", "tanh"):
+            return getattr(ca, op)(rec(e[1]))
+        if op == "+":
+            return rec(e[1]) + rec(e[2])
+        if op == "-":
+            return rec(e[1]) - rec(e[2])
+        if op == "*":
+            return rec(e[1]) * rec(e[2])
+        return atom(e)      # symbols, t, T, ..., shifted operands, placeholders: atomic
+    total = ca.MX(0)
+    for i, e in enumerate(exprs):
+        total = total + (i + 1.5) * rec(e)
+    return [json.loads(k) for k, s in atoms.items() if json.loads(k)[0] == "off" and not ca.depends_on(total, s)]
